@@ -14,6 +14,17 @@ class ControlRequestHandler(USBRequestHandler):
     """ Pure-gateware USB control request handler. """
 
 
+    def handle_setup_token(self, m):
+        """ Returns the handler FSM to IDLE when a new SETUP token arrives; to be used inside each non-IDLE state.
+
+        A SETUP always starts a fresh control transfer, even if the previous one was abandoned mid-way
+        [USB2.0: 8.5.3]; compare USBControlEndpoint._handle_setup_reset.
+        """
+        tokenizer = self.interface.tokenizer
+        with m.If(tokenizer.new_token & tokenizer.is_setup):
+            m.next = 'IDLE'
+
+
     def handle_register_write_request(self, m, new_value_signal, write_strobe, stall_condition=0):
         """ Fills in the current state with a request handler meant to set a register.
 
@@ -43,6 +54,8 @@ class ControlRequestHandler(USBRequestHandler):
             # ... and then return to idle.
             m.next = 'IDLE'
 
+        self.handle_setup_token(m)
+
 
     def handle_simple_data_request(self, m, transmitter, data, length=1):
         """ Fills in a given current state with a request that returns a given piece of data.
@@ -69,3 +82,5 @@ class ControlRequestHandler(USBRequestHandler):
         with m.If(self.interface.status_requested):
             m.d.comb += self.interface.handshakes_out.ack.eq(1)
             m.next = 'IDLE'
+
+        self.handle_setup_token(m)
